@@ -373,7 +373,7 @@ func famCalTree(o *Out, r *RNG, thorough bool) {
 		calOf(&gComp{name: "VEVENT", props: []gProp{{name: "X-A", value: ""}},
 			children: []*gComp{{name: "VALARM", props: []gProp{{name: "ACTION", value: "AUDIO"}}}}}),
 	}
-	tms := []*caldav.TextMatch{nil, {Text: "a"}, {Text: "a", NegateCondition: true}, {Text: ""}}
+	tms := []*caldav.TextMatch{nil, {Text: "a"}, {Text: "a", NegateCondition: true}, {Text: ""}, {Text: "", NegateCondition: true}}
 	var propFilters [][]caldav.PropFilter
 	propFilters = append(propFilters, nil)
 	for _, n := range calPropNames {
